@@ -89,4 +89,31 @@ theorem collapse_final_shape (cfg : Yak.Proto.Collapse.Cfg) (s : Yak.Proto.Colla
       (s.leaf L.other).root = true ∧ (s.leaf L.other).parent = false ∧
       (s.leaf L).root = false := Yak.Proto.Collapse.both_done_shape hr hd
 
+/-- "operations always complete" in this instance: from every reachable state some continuation of
+    at most 20 steps finishes both removes (no reachable state is a trap — the retry loops can
+    always be left). An existence statement: no scheduler or fairness assumption. -/
+theorem collapse_can_always_finish (cfg : Yak.Proto.Collapse.Cfg) (s : Yak.Proto.Collapse.State)
+    (hr : Yak.Proto.Collapse.Reach cfg s) :
+    ∃ es s', Yak.Proto.Collapse.exec cfg s es = some s' ∧ Yak.Proto.Collapse.bothDone s' ∧
+      es.length ≤ 20 := Yak.Proto.Collapse.can_finish_both hr
+
+/-- "a reader/writer never waits on something that only itself could change": a thread that runs
+    alone stops within 12 steps, either done or waiting for a lock THE OTHER thread holds. -/
+theorem collapse_solo_run_halts (cfg : Yak.Proto.Collapse.Cfg) (s : Yak.Proto.Collapse.State)
+    (hr : Yak.Proto.Collapse.Reach cfg s) (t : Yak.Proto.Collapse.Tid) :
+    ∃ n s', n ≤ 12 ∧
+      Yak.Proto.Collapse.exec cfg s (List.replicate n (.step t)) = some s' ∧
+      Yak.Proto.Collapse.step? cfg s' (.step t) = none ∧
+      (s'.pc t = .done ∨ ∃ l, (s'.pc t).wants t.own = some l ∧ s'.lockOf l = some t.other) :=
+  Yak.Proto.Collapse.solo_run_halts hr t
+
+/-- a retry edge (line 5→3, 8'→7, …) is taken only after the other thread has passed line 9'
+    (released its own node and started collapsing the interior node): retries need interference. -/
+theorem collapse_retry_needs_interference (cfg : Yak.Proto.Collapse.Cfg)
+    (s s' : Yak.Proto.Collapse.State) (hr : Yak.Proto.Collapse.Reach cfg s)
+    (t : Yak.Proto.Collapse.Tid) (h : Yak.Proto.Collapse.step? cfg s (.step t) = some s')
+    (he : Yak.Proto.Collapse.retryEdge (s.pc t) (s'.pc t) = true) :
+    s.pc t.other = .intDel ∨ s.pc t.other = .intRootLock ∨ s.pc t.other = .promote ∨
+    s.pc t.other = .done := Yak.Proto.Collapse.retry_only_after_leave hr t h he
+
 end Yak.Props.C09
